@@ -6,6 +6,7 @@ A script is a list of tuples; the same alphabet is understood by the Coq model
   ("open",) ("close",) ("send", k, pol) ("send2", k1, pol1, k2, pol2)
   ("adv", ticks) ("net", accept, latency_ticks) ("eof",) ("rst",)
   ("frame", j) ("bad", kind) ("failw",) ("reset",) ("subraise", flag)
+and, outside the model (monitors only): ("bp", on) ("subsend", k, pol) ("sendclose", k, pol)
 
 The result is one list of canonical events per stimulus.
 """
@@ -399,6 +400,11 @@ class SockRunner:
             self.sub_raise = bool(st[1])
         elif kind == "subsend":
             self.sub_send = (st[1], st[2]) if st[1] >= 0 else None
+        elif kind == "sendclose":
+            # another task calls send() at the moment the client closes its transport (teardown window of
+            # reset_connection / of the read loop after a fault): one-shot
+            k, pol = st[1], st[2]
+            net.on_client_close = lambda conn: (self.events.append(("hooksend",)), self._spawn(self._do_send(k, pol)))
         elif kind == "bp":
             # transport back-pressure: while on, writer.drain() blocks (the transport called
             # pause_writing() on the stream protocol); also applied to connections opened meanwhile
